@@ -189,11 +189,20 @@ def step (st : St) (pre post : List String) : St × Verdict :=
       if expected.isSome then (st, pf st "reopen-fails" s!"version {tv} was committed but cannot be reopened: {post}")
       else if mm.isSome then (st, .diff s!"reopen {which}: model loads, implementation fails {post}")
       else (st, .ok)
-    | [ver, hash] =>
+    | ver :: hash :: evs =>
+      -- writes the implementation performed while loading (discarding an uncommitted first version)
+      match evs.mapM parseEvent with
+      | none => (st, .bad "reopen events")
+      | some batches =>
+      match batches.foldlM (fun d b => Disk.applyRawAll d b) st.shadow with
+      | none => (st, .diff "reopen: record does not decode")
+      | some shadow' =>
+      let st := { st with shadow := shadow' }
       match parseCID ver hash, mm with
       | some cid, some m2 =>
         let st' := if target.isNone then { st with model := some m2, peek := some m2, peekVer := tv } else { st with peek := some m2, peekVer := tv }
         if m2.lastCommitID ≠ cid then (st', .diff s!"reopen {which}: model lastCommitID={m2.lastCommitID.version} {renderHash m2.lastCommitID.hash} impl={post}")
+        else if !(Disk.same st.names m2.disk shadow') then (st', .diff s!"disk after loading differs:{diskDiff st.names m2.disk shadow'}")
         else match expected with
         | none => (st', pf st "reopen-unknown-version" s!"version {tv} must not be readable but loads: {post}")
         | some e =>
